@@ -30,10 +30,11 @@ structure FloatOracle where
 inductive Ts where
   | int (n : Int)
   | float (repr : Str) (toInt : Except Err Int)
+  | bool (b : Bool)                -- `build_timestamp = True`: an int to `isinstance` (F43); refused by the repaired `_assert_type`
 
-def Ts.str : Ts → Str | .int n => Str.intStr n | .float r _ => r
-def Ts.toInt : Ts → Except Err Int | .int n => .ok n | .float _ t => t
-def Ts.py : Ts → PyVal | .int n => .int n | .float r _ => .float r
+def Ts.str : Ts → Str | .int n => Str.intStr n | .float r _ => r | .bool b => (if b then "True" else "False").toList
+def Ts.toInt : Ts → Except Err Int | .int n => .ok n | .float _ t => t | .bool b => .ok (if b then 1 else 0)
+def Ts.py : Ts → PyVal | .int n => .int n | .float r _ => .float r | .bool b => .bool b
 
 structure Product where
   name : Str
